@@ -73,7 +73,10 @@ impl<'a> Remote<'a> {
                 crate::yield_now()
             }
         }
-        if !notified && let Some(ref waker) = shared.waker {
+        // Always wake after the push: a wake-up issued while the queue was full
+        // happened *before* the id was queued and may already have been consumed
+        // (the runtime drained, found nothing and went back to sleep).
+        if let Some(ref waker) = shared.waker {
             waker.wake_by_ref();
         }
 
